@@ -370,7 +370,9 @@ func (vf *VersionedFetcher) merge(c cid.Cid) error {
 	default:
 		field, ok := vf.col.Definition().GetFieldByName(block.Delta.GetFieldName())
 		if !ok {
-			return client.NewErrFieldNotExist(block.Delta.GetFieldName())
+			// The commit was written under a version of the collection that has this field, the
+			// active version does not: there is nothing to show for it (as when such a commit is merged).
+			return nil
 		}
 
 		fieldShortID, err := id.GetShortFieldID(vf.ctx, shortID, field.Name)
